@@ -273,7 +273,8 @@ def _module_static(module):
 class SafetyMonitor:
     """Run-time monitor for C03, called after every tick."""
 
-    def __init__(self, module):
+    def __init__(self, module, strict_after_trap=False):
+        self.strict_after_trap = strict_after_trap
         self.starts, self.code_len, self.stmt_starts, self.frame_at = \
             _module_static(module)
         self.cell_types = {}     # (id(segment), idx) -> CellType
@@ -361,7 +362,10 @@ class SafetyMonitor:
         # handler -- leftovers of the interrupted statement are C10's
         # subject, see known_findings.json)
         if pc in self.stmt_starts and fr is not None and \
-                pc not in self.frame_at and cpu.last_trap is None and \
+                pc not in self.frame_at and \
+                (cpu.last_trap is None or (self.strict_after_trap and
+                                           not cpu.error_handler_active)) \
+                and \
                 id(fr) in self.frame_depth:
             want = self.frame_depth[id(fr)] + self.gosubs.get(id(fr), 0)
             if len(cpu.stack) != want:
@@ -414,4 +418,28 @@ def check_total(cid, cfg, *xs):
         rtrace, res, _ = run_ref(cell, xs)
         if not outcome_matches(out, res):
             return 0
+    return 1
+
+
+# ---------------------------------------------------------------------
+# C10: ON ERROR / RESUME
+# ---------------------------------------------------------------------
+
+def check_onerror(cid, cfg, *xs):
+    """Reference trace/outcome AND, after every resumption, a clean operand
+    stack at each statement start (none of the failed statement's partial
+    results remain)."""
+    cell = CATALOG[cid]
+    opt, dbg = CONFIGS[cfg]
+    _, _, module = compile_program(cell.text, opt, dbg)
+    mon = SafetyMonitor(module, strict_after_trap=True)
+    trace, out, machine = run_impl(cell, cfg, xs, per_tick=mon)
+    rtrace, res, _ = run_ref(cell, xs)
+    if not outcome_matches(out, res):
+        return 0
+    if not trace_equal(trace, rtrace):
+        return 0
+    if mon.violation is not None and \
+            mon.violation.startswith('stack depth'):
+        return 0
     return 1
